@@ -14,7 +14,8 @@ import BibVerif.Generated.Months
 namespace Bib.Month
 open Bib
 
-/-- exceptions that month.py could raise; all but `valueError` are "cannot happen" table lookups -/
+/-- exceptions that month.py could raise: all are "cannot happen" table lookups (`KeyError`, `IndexError`,
+`ValueError` of `list.index`) -/
 inductive Err
   | valueError | keyError | indexError
 deriving DecidableEq, Repr, Inhabited
@@ -58,15 +59,18 @@ def digitsToInt (v : Val) : Val :=
     else v
   | _ => v
 
-/-- `f"{v}"` for an int: CPython refuses to format an int of more than `D` decimal digits
-(`|v| ≥ 10^D`) with `ValueError` -/
-def fmtInt (i : Int) : Except Err Str :=
-  if 0 < D ∧ 10 ^ D ≤ i.natAbs then .error .valueError else .ok (intToStr i)
+/-- the text shown in place of an int that `str()` refuses to print -/
+def tooManyDigits : Str := "<integer with too many digits>".toList
+
+/-- `shown` in `_unknown_month_message` (month.py:72-78): `str(v)`, and when CPython refuses to print
+an int of more than `D` decimal digits (`|v| ≥ 10^D`, `ValueError`) the placeholder text -/
+def fmtInt (i : Int) : Str :=
+  if 0 < D ∧ 10 ^ D ≤ i.natAbs then tooManyDigits else intToStr i
 
 def msgUnknownPrefix : Str := "month-field unchanged - unknown month ".toList
 
-def msgUnknown (i : Int) : Except Err Str := do
-  pure (msgUnknownPrefix ++ (← fmtInt D i))
+/-- `_unknown_month_message(v)` -/
+def msgUnknown (i : Int) : Str := msgUnknownPrefix ++ fmtInt D i
 
 def msgUnchanged : Str := "month field unchanged".toList
 def msgLongInt : Str := "transformed int-month to str-month".toList
@@ -83,9 +87,7 @@ def msgIntFull : Str := "transformed abbreviated month to int-month".toList
 def resolveLong (orig : Val) : Except Err (Val × Str) :=
   match digitsToInt P D orig with
   | .int i =>
-    if i < 1 ∨ i > 12 then do
-      let m ← msgUnknown D i
-      pure (orig, m)
+    if i < 1 ∨ i > 12 then pure (orig, msgUnknown D i)
     else
       match fulls[(i - 1).toNat]? with
       | some f => pure (.str f, msgLongInt)
@@ -109,9 +111,7 @@ def resolveLong (orig : Val) : Except Err (Val × Str) :=
 def resolveAbbr (orig : Val) : Except Err (Val × Str) :=
   match digitsToInt P D orig with
   | .int i =>
-    if i < 1 ∨ i > 12 then do
-      let m ← msgUnknown D i
-      pure (orig, m)
+    if i < 1 ∨ i > 12 then pure (orig, msgUnknown D i)
     else
       match abbrs[(i - 1).toNat]? with
       | some a => pure (.str a, msgAbbrInt)
